@@ -35,6 +35,13 @@ def cases(tier, seed, flavour):
     for n in (5, 8):
         for v in range(2 if tier == 'quick' else 8):
             yield {'fam': 'conelp', 'dims': 'arrow', 'n': n, 'p': 2, 'variant': v}
+    # as many variables as the rank assumption allows (an 's' block of order k carries k(k+1)/2 independent coordinates)
+    for d in structs:
+        npk = R.cdim_packed(d)
+        if d['s'] and max(d['s']) >= 2 and npk <= 6:
+            for (n, p) in ((npk, 0), (npk + 1, 1)):
+                for v in range(2 if tier == 'quick' else 4):
+                    yield {'fam': 'conelp', 'dims': d, 'n': n, 'p': p, 'variant': v}
     for d in (structs if tier == 'thorough' else structs[:14]):
         for (n, p) in nps[:2]:
             yield {'fam': 'coneqp', 'dims': d, 'n': n, 'p': p, 'variant': seed}
